@@ -29,8 +29,10 @@ GSW(a, b, p) == LET x == XM(p) z == ZM(p)
                     xa == Bit(x, a) za == Bit(z, a) xb == Bit(x, b) zb == Bit(z, b)
                 IN  Mk(SetBit(SetBit(x, a, xb), b, xa), SetBit(SetBit(z, a, zb), b, za), SG(p))
 
-OneQubitNames == {"id", "i", "x", "y", "z", "h", "s", "sdg"}
-TwoQubitNames == {"cx", "cz", "swap"}
+(* the documented vocabulary plus three further Clifford gates a correct implementation might emit (sx = H S H, sxdg = H Sdg H up to phase, *)
+(* cy = Sdg_t CX S_t); a cy counts as one native two-qubit gate                                                                          *)
+OneQubitNames == {"id", "i", "x", "y", "z", "h", "s", "sdg", "sx", "sxdg"}
+TwoQubitNames == {"cx", "cz", "swap", "cy"}
 KnownNames    == OneQubitNames \cup TwoQubitNames
 IsTwo(g) == g[1] \in TwoQubitNames
 (* well-formed gate on an n-qubit register *)
@@ -49,12 +51,18 @@ Apply(g, p) == IF ~Applicable(g) THEN p ELSE
                  [] g[1] = "h"    -> GH(g[2], p)
                  [] g[1] = "s"    -> GS(g[2], p)
                  [] g[1] = "sdg"  -> GSdg(g[2], p)
+                 [] g[1] = "sx"   -> GH(g[2], GS(g[2], GH(g[2], p)))
+                 [] g[1] = "sxdg" -> GH(g[2], GSdg(g[2], GH(g[2], p)))
+                 [] g[1] = "cy"   -> GS(g[3], GCX(g[2], g[3], GSdg(g[3], p)))
                  [] g[1] = "cx"   -> GCX(g[2], g[3], p)
                  [] g[1] = "cz"   -> GCZ(g[2], g[3], p)
                  [] g[1] = "swap" -> GSW(g[2], g[3], p)
 
-InvGate(g) == IF g[1] = "s" THEN <<"sdg", g[2], g[3]>>
-              ELSE IF g[1] = "sdg" THEN <<"s", g[2], g[3]>> ELSE g
+InvGate(g) == CASE g[1] = "s" -> <<"sdg", g[2], g[3]>>
+                [] g[1] = "sdg" -> <<"s", g[2], g[3]>>
+                [] g[1] = "sx" -> <<"sxdg", g[2], g[3]>>
+                [] g[1] = "sxdg" -> <<"sx", g[2], g[3]>>
+                [] OTHER -> g
 (* the inverse circuit: inverse gates in reverse order *)
 Inverse(gs) == [i \in 1..Len(gs) |-> InvGate(gs[Len(gs) + 1 - i])]
 
